@@ -194,7 +194,6 @@ class TablerowNode(Node):
         else:
             cols = length
 
-        context.raise_for_loop_limit(length)
         tablerow = TableRow(name, loop_iter, length, cols)
 
         namespace: dict[str, object] = {
@@ -204,7 +203,7 @@ class TablerowNode(Node):
         buffer.write('<tr class="row1">\n')
         _break = False
 
-        with context.extend(namespace):
+        with context.repeat(length), context.extend(namespace):
             for item in tablerow:
                 namespace[name] = item
                 buffer.write(f'<td class="col{tablerow.col}">')
@@ -243,7 +242,6 @@ class TablerowNode(Node):
         else:
             cols = length
 
-        context.raise_for_loop_limit(length)
         tablerow = TableRow(name, loop_iter, length, cols)
 
         namespace: dict[str, object] = {
@@ -253,7 +251,7 @@ class TablerowNode(Node):
         buffer.write('<tr class="row1">\n')
         _break = False
 
-        with context.extend(namespace):
+        with context.repeat(length), context.extend(namespace):
             for item in tablerow:
                 namespace[name] = item
                 buffer.write(f'<td class="col{tablerow.col}">')
